@@ -11,7 +11,7 @@
 (*   rev    an Output was created from a raw locking script; TLC judges    *)
 (*          the reported type / address / hash                             *)
 (* Primitives stay outside TLC: r.facts is a list [f, x, y] meaning        *)
-(* f(x) = y with f in {"sha256d4", "hash160"}, computed by harness/ref.py. *)
+(* f(x) = y with f in {"sha256d4", "hash160", "sha256"} (harness/ref.py).   *)
 (* Named deviations (what the code does instead, used only to match        *)
 (* entries of known_findings) are defined at the end.                      *)
 (***************************************************************************)
@@ -73,14 +73,34 @@ BuildAddr(facts, nw, d) ==
     IF ~ValidDest(d) THEN BOut(<<>>, <<>>, <<>>, "nonstandard", d)
     ELSE LET need == NeedAddr(facts, nw, d) IN
          BOut(need, IF need = <<>> THEN AddrT(facts, nw, d) ELSE <<>>, Lock(d), TypeName(d), d)
+\* ---- which destination a key / a piece of data stands for.  A plan is [need, d]: either primitive applications that
+\* are still missing, or the destination.
+Done(d) == [need |-> <<>>, d |-> d]
+With(facts, f, x, K(_)) == IF Has(facts, f, x) THEN K(Get(facts, f, x)) ELSE [need |-> <<Req(f, x)>>, d |-> NoDest]
+\* nested segwit (BIP141 P2SH-P2WPKH / P2SH-P2WSH): P2SH of the witness script OP_0 <program>
+Nested(facts, prog) == With(facts, "hash160", Lock(Wit(0, prog)), LAMBDA h : Done(SH(h)))
+\* an HD key with witness type wt; h160 = HASH160(public key).  A multisig (co-signer) key on its own stands for the
+\* script-hash destination of its serialized public key: P2SH / P2WSH / P2SH-P2WSH (never for a key-hash destination)
+KeyPlan(facts, wt, ms, h160, pub) ==
+    IF ~ms THEN (IF wt = "legacy" THEN Done(PKH(h160)) ELSE IF wt = "segwit" THEN Done(Wit(0, h160)) ELSE Nested(facts, h160))
+    ELSE IF wt = "legacy" THEN Done(SH(h160))
+    ELSE IF wt = "segwit" THEN With(facts, "sha256", pub, LAMBDA sh : Done(Wit(0, sh)))
+    ELSE With(facts, "sha256", pub, LAMBDA sh : Nested(facts, sh))
+\* an address object made from data (a public key or a script) and a script type
+DataPlan(facts, st, data) ==
+    CASE st = "p2pkh" -> With(facts, "hash160", data, LAMBDA h : Done(PKH(h)))
+      [] st = "p2sh" -> With(facts, "hash160", data, LAMBDA h : Done(SH(h)))
+      [] st = "p2wpkh" -> With(facts, "hash160", data, LAMBDA h : Done(Wit(0, h)))
+      [] st = "p2wsh" -> With(facts, "sha256", data, LAMBDA sh : Done(Wit(0, sh)))
+      [] st = "p2sh_p2wpkh" -> With(facts, "hash160", data, LAMBDA h : Nested(facts, h))
+      [] st = "p2sh_p2wsh" -> With(facts, "sha256", data, LAMBDA sh : Nested(facts, sh))
+      [] OTHER -> Done(NoDest)
+
 Build(r) ==
     CASE r.what = "addr" -> BuildAddr(r.facts, r.x, MkDest(r.dk, r.wv, r.p))
-      [] r.what = "key" ->          \* r.p = HASH160 of the (compressed) public key, r.wt the key's witness type
-           IF r.wt = "legacy" THEN BuildAddr(r.facts, r.x, PKH(r.p))
-           ELSE IF r.wt = "segwit" THEN BuildAddr(r.facts, r.x, Wit(0, r.p))
-           ELSE LET redeem == Lock(Wit(0, r.p)) IN         \* P2SH-P2WPKH: the script hash of OP_0 <keyhash>
-                IF ~Has(r.facts, "hash160", redeem) THEN BOut(<<Req("hash160", redeem)>>, <<>>, <<>>, "", NoDest)
-                ELSE BuildAddr(r.facts, r.x, SH(Get(r.facts, "hash160", redeem)))
+      [] r.what \in {"key", "data"} ->   \* key: r.p = HASH160(public key r.pub), r.wt / r.ms the key's witness type / multisig flag
+           LET pl == IF r.what = "key" THEN KeyPlan(r.facts, r.wt, r.ms, r.p, r.pub) ELSE DataPlan(r.facts, r.st, r.pub) IN
+           IF pl.need # <<>> THEN BOut(pl.need, <<>>, <<>>, "", NoDest) ELSE BuildAddr(r.facts, r.x, pl.d)
       [] r.what = "script" ->       \* script bytes + the checksum facts the judge may need under network r.y
            LET s == ScriptOf(MkDest(r.dk, r.wv, r.p), r.mut)
                d1 == Classify(s)
@@ -112,7 +132,8 @@ DevWitverDropped(r, D) == D.k = "wit" /\ D.v >= 2 /\ r.obs.lock = LockT(Wit(1, D
 \* a 20-byte witness program of version >= 1 is paid as version 0 (P2WPKH)
 DevV1Plus20(r, D) == D.k = "wit" /\ D.v >= 1 /\ Len(D.p) = 20 /\ r.obs.lock = LockT(Wit(0, D.p))
 \* an Address / HDKey object of another network is accepted; the output silently adopts the object's network
-DevForeignObject(r, a) == /\ r.route \in {"obj", "parse", "parse_nw", "hdkey", "tx_obj", "tx_hdkey"} /\ a.ok /\ r.obs.ok
+ObjRoutes == {"obj", "obj_data", "parse", "parse_nw", "hdkey", "tx_obj", "tx_hdkey", "akey", "tx_akey"}
+DevForeignObject(r, a) == /\ r.route \in ObjRoutes /\ a.ok /\ r.obs.ok
                           /\ r.x \in NetworksOf(a) /\ r.obs.lock = Lock(DestFor(a, r.x)) /\ r.obs.addr = r.a0
 \* the payload length is not checked against the requested type: the template is filled with whatever was given
 DevLengthFwd(r) == /\ r.route = "hash" /\ r.obs.ok /\ ~ValidDest(MkDest(r.dk, r.wv, r.p))
@@ -128,6 +149,13 @@ DevParseWitver(r) == /\ r.route \in {"parse", "parse_nw"} /\ r.dk = "wit" /\ r.w
 DevUncompressed(r) == /\ r.route \in {"hdkey", "tx_hdkey"}
                       /\ \E i \in 1..Len(r.prior) : r.prior[i] \in {"addr_uncompressed", "addr_compressed_false"}
                       /\ (r.obs.ok /\ r.dk = "pkh") => r.obs.lock = LockT(PKH(r.pu))
+
+\* an Address object whose script type is a nested-segwit name (p2sh_p2wpkh / p2sh_p2wsh: the address object of a
+\* p2sh-segwit key, or Address(data, script_type='p2sh_p2wpkh')) shows a P2SH address but is paid as OP_0 <script hash>
+DevNestedObject(r, D) == /\ r.route \in ObjRoutes /\ r.ot \in {"p2sh_p2wpkh", "p2sh_p2wsh"} /\ D.k = "sh"
+                         /\ r.obs.lock = LockT(Wit(0, D.p))
+\* the address object of a key carries an unlocking-script name (sig_pubkey, p2sh_multisig) which Output cannot fill in
+DevKeyObjectRefused(r) == r.route \in {"akey", "tx_akey"} /\ ~r.obs.ok /\ r.ot \in {"sig_pubkey", "p2sh_multisig"}
 
 JFwd(r) ==
     LET a == DecodeAddr(r.a0)
@@ -150,13 +178,15 @@ JFwd(r) ==
                    ELSE IF DevP2trFromKey(r) THEN "p2tr-from-public-key-uses-hash160" ELSE "", <<>>))
     ELSE IF ~o.ok THEN (IF Standard(D)
                         THEN Bad("standard-destination-refused",
-                                 IF DevUncompressed(r) THEN "uncompressed-address-query-switches-key" ELSE "", Lock(D))
+                                 IF DevUncompressed(r) THEN "uncompressed-address-query-switches-key"
+                                 ELSE IF DevKeyObjectRefused(r) THEN "key-address-object-refused" ELSE "", Lock(D))
                         ELSE Ok)
     ELSE IF o.lock # Lock(D)
     THEN Bad("lock-script", IF DevWitverDropped(r, D) THEN "witness-version-above-1-paid-as-v1"
                             ELSE IF DevV1Plus20(r, D) THEN "witness-v1plus-20byte-paid-as-p2wpkh"
                             ELSE IF DevHexFwd(r) THEN "hex-text-payload-unhexlified"
-                            ELSE IF DevUncompressed(r) THEN "uncompressed-address-query-switches-key" ELSE "", Lock(D))
+                            ELSE IF DevUncompressed(r) THEN "uncompressed-address-query-switches-key"
+                            ELSE IF DevNestedObject(r, D) THEN "nested-segwit-address-object-paid-as-p2wpkh" ELSE "", Lock(D))
     ELSE IF Standard(D) /\ o.type # TypeName(D) THEN Bad("script-type", "", <<>>)
     ELSE IF ~Standard(D) /\ o.type \in LegacyFour THEN Bad("script-type", "", <<>>)
     ELSE IF o.hash # D.p THEN Bad("public-hash", IF DevHexFwd(r) THEN "hex-text-payload-unhexlified" ELSE "", D.p)
